@@ -5,6 +5,7 @@ from . import layout, common, cmpmodel, panics
 
 ID = "C16"
 CONFIGS = {"quick": ["K10", "K11"], "thorough": ["K10", "K11", "K12", "K16"]}
+FIXTURES = {"panic"}
 META = {
     "explanation": (
         "Static analysis (MIR paths, call graph) of the Serialize/Deserialize impls and the two visitors in the serde "
